@@ -26,10 +26,28 @@ def run(ctx, chk):
     done = set()
     helpers = set()
     n = 0
+    cover = {}
     for (cfg, I, C, struct, p, kind, offw, term, o) in numeric_fields(ctx, cfgs):
         sent = sentinel_of(kind)
         if sent is None:
             continue
+        # "never turned into absent or into an error": over the outcomes that decode the message,
+        # the field's raw values must not be restricted (a `verify` that refuses month 13..15
+        # leaves no Ok outcome for those values)
+        full_u = IntSet.range(0, (1 << offw[1]) - 1)
+        g = o.guard.get(("bits", offw[0], offw[1]))
+        gs = o.guard.get(("sext", offw[0], offw[1]))
+        if gs is not None and g is None:
+            neg = gs.intersect(IntSet.range(-(1 << (offw[1] - 1)), -1))
+            g = gs.intersect(IntSet.range(0, (1 << (offw[1] - 1)) - 1))
+            for lo, hi in neg.iv:
+                g = g.union(IntSet.range(int(lo) + (1 << offw[1]), int(hi) + (1 << offw[1])))
+        needle = "('bits', 'P', %d, %d)" % (offw[0], offw[1])
+        cond = [k for k, v in (o.opq or {}).items() if needle in repr(k)]
+        chk.ob(not cond, "C11/values-conditioned/%s/%s" % (struct, p),
+               "%s.%s [%s]: whether the message decodes depends on a predicate of this field's raw value that the analysis cannot evaluate (%s): some raw values may be turned into an error" % (struct, p, cfg, repr(cond[:1])[:160]))
+        ck = (cfg, struct, p, offw)
+        cover[ck] = cover.get(ck, IntSet.empty()).union(full_u if g is None else g.intersect(full_u))
         r = field_table(chk, "C11", I, C, cfg, struct, p, kind, offw, term, o, cache)
         if r is None:
             continue
@@ -59,6 +77,10 @@ def run(ctx, chk):
                sample={"field": struct + "." + p, "absent_for": repr(none_set), "sentinel": sent})
         chk.ob(some_set == rng.minus(want), "C11/%s/%s/some=%s" % (struct, p, some_set.iv[:3]),
                "%s.%s [%s]: present for %r, expected every value except the sentinel (a value panics or is dropped)" % (struct, p, cfg, some_set))
+    for (cfg, struct, p, offw), cv in sorted(cover.items(), key=repr):
+        full_u = IntSet.range(0, (1 << offw[1]) - 1)
+        chk.ob(cv == full_u, "C11/values-rejected/%s/%s/%s" % (struct, p, full_u.minus(cv)),
+               "%s.%s [%s]: no decoded outcome exists for raw values %r of this %d-bit field (the message is rejected or the value lost)" % (struct, p, cfg, full_u.minus(cv), offw[1]))
     # the decoders are public functions of their own: over the whole argument type (not only the
     # field's range) the absent set must still be the sentinel alone - "out-of-range raw values
     # that are not the sentinel are passed through, never turned into absent"
